@@ -1,6 +1,7 @@
 """Contains the Credit (coin play) mode code."""
 
-from math import floor
+from fractions import Fraction
+from math import floor, gcd
 
 from mpf.core.placeholder_manager import NativeTypeTemplate
 from mpf.core.settings_controller import SettingEntry
@@ -106,16 +107,6 @@ class Credits(Mode):
         # We need to calculate it differently depending on how the coin switch
         # values relate to game cost.
 
-        if self.credits_config['switches']:
-            min_currency_value = min(x['value'].evaluate([]) for x in
-                                     self.credits_config['switches'])
-        else:
-            try:
-                min_currency_value = (
-                    self.credits_config['pricing_tiers'][0]['price'].evaluate([]))
-            except IndexError:
-                min_currency_value = 1
-
         try:
             price_per_game = self.credits_config['pricing_tiers'][0]['price'].evaluate([])
             if self.credits_config['pricing_tiers'][0]['credits'] != NativeTypeTemplate(1, self.machine):
@@ -123,24 +114,25 @@ class Credits(Mode):
         except IndexError:
             price_per_game = 1
 
-        if min_currency_value == price_per_game:
-            self.credit_unit = min_currency_value
+        # the credit unit is the largest amount of which the price per game, all
+        # other pricing tiers and all coin values are whole multiples
+        amounts = [price_per_game]
+        amounts.extend(x['price'].evaluate([]) for x in self.credits_config['pricing_tiers'])
+        amounts.extend(x['value'].evaluate([]) for x in self.credits_config['switches'])
+        fractions = [Fraction(amount).limit_denominator(1000) for amount in amounts if amount > 0]
+        denominator = 1
+        for fraction in fractions:
+            denominator = denominator * fraction.denominator // gcd(denominator, fraction.denominator)
+        numerator = 0
+        for fraction in fractions:
+            numerator = gcd(numerator, int(fraction * denominator))
+        credit_unit = Fraction(numerator, denominator)
+        self.credit_unit = float(credit_unit)
 
-        elif min_currency_value < price_per_game:
-            self.credit_unit = price_per_game - min_currency_value
-            if self.credit_unit > min_currency_value:
-                self.credit_unit = min_currency_value
+        self.debug_log("Calculated the credit unit to be %s based on a price per game of %s",
+                       self.credit_unit, price_per_game)
 
-        elif min_currency_value > price_per_game:
-            self.credit_unit = min_currency_value - price_per_game
-            if self.credit_unit > price_per_game:
-                self.credit_unit = price_per_game
-
-        self.debug_log("Calculated the credit unit to be %s based on a minimum"
-                       "currency value of %s and a price per game of %s",
-                       self.credit_unit, min_currency_value, price_per_game)
-
-        self.credit_units_per_game = int(price_per_game / self.credit_unit)
+        self.credit_units_per_game = int(round(price_per_game / self.credit_unit))
 
         self.info_log("Credit units per game: %s", self.credit_units_per_game)
 
